@@ -197,6 +197,8 @@ structure RInv (c : Cfg) (past : List Event) (s : SpecSt) (n : Node) : Prop wher
   keysFrom : ∀ k it, n.store.get k = some it → ∃ e, (e ∈ submitted past ∨ e ∈ received past) ∧ e.key = k
   idkFrom : ∀ st, (lookupNat n.idk st).isSome = true → ∃ e ∈ submitted past, (e.src, e.ts) = st
   obls : ∀ ob ∈ s.obls, OblOk c past n ob
+  peers : s.peers = n.peers
+  pnodup : (n.peers.map (·.addr)).Nodup
 
 theorem OblOk.frame {c : Cfg} {past past' : List Event} {n n' : Node} {ob : Obl}
     (h : OblOk c past n ob) (hs : ∀ b, b ∈ submitted past → b ∈ submitted past')
@@ -295,6 +297,8 @@ structure CoreOk (c : Cfg) (past : List Event) (s : SpecSt) (e : Event) (m : Nod
   old : ∀ ob ∈ s.obls, ob.discharged outs = true ∨ lifetimeOk (nowAfter s.now e) ob.acceptedAt ob.b = false ∨
     OblOk c (past ++ [e]) m ob
   new : ∀ ob, newObl c s e = some ob → ob.discharged outs = true ∨ OblOk c (past ++ [e]) m ob
+  peers : m.peers = peersAfter s.peers e
+  pnodup : (m.peers.map (·.addr)).Nodup
 
 theorem mem_submitted_snoc {past : List Event} {e : Event} {b : Bundle} (h : b ∈ submitted past) :
     b ∈ submitted (past ++ [e]) := by
@@ -354,7 +358,7 @@ theorem rinv_of_core (c : Cfg) (env : Env) (past : List Event) (e : Event) (s : 
     intro ob hob
     have := retained1_ok e (step env n e).2 hdom hcore.wf hcore.keysFrom (hall ob hob)
     simpa [obsOf, hview] using this
-  · refine ⟨?_, hcore.cfg, ?_, rfl, ?_, hcore.idkFrom, ?_⟩
+  · refine ⟨?_, hcore.cfg, ?_, rfl, ?_, hcore.idkFrom, ?_, ?_, hcore.pnodup⟩
     · exact ⟨hcore.wf.keyed, hcore.wf.nodup⟩
     · show nowAfter s.now e = (stepCore env n e).1.now
       exact hcore.now.symm
@@ -362,6 +366,8 @@ theorem rinv_of_core (c : Cfg) (env : Env) (past : List Event) (e : Event) (s : 
     · intro ob hob
       have := hall ob hob
       exact ⟨this.origin, this.dst, this.hop, this.item⟩
+    · show peersAfter s.peers e = (stepCore env n e).1.peers
+      exact hcore.peers.symm
 
 
 /-! ### events that do not touch the store -/
@@ -377,8 +383,9 @@ theorem newObl_none_of (c : Cfg) (s : SpecSt) (e : Event)
 theorem core_storeSame (c : Cfg) (past : List Event) (s : SpecSt) (n m : Node) (e : Event) (outs : List Output)
     (inv : RInv c past s n) (hs : m.store = n.store) (hc : m.cfg = n.cfg) (hn : m.now = nowAfter s.now e)
     (hi : ∀ st, (lookupNat m.idk st).isSome = true → (lookupNat n.idk st).isSome = true)
-    (hnew : newObl c s e = none) : CoreOk c past s e m outs := by
-  refine ⟨⟨?_, ?_⟩, hc.trans inv.cfg, hn, ?_, ?_, ?_, ?_⟩
+    (hnew : newObl c s e = none) (hp : m.peers = peersAfter s.peers e)
+    (hpn : (m.peers.map (·.addr)).Nodup) : CoreOk c past s e m outs := by
+  refine ⟨⟨?_, ?_⟩, hc.trans inv.cfg, hn, ?_, ?_, ?_, ?_, hp, hpn⟩
   · rw [hs]; exact inv.wf.keyed
   · rw [hs]; exact inv.wf.nodup
   · intro k it hg
@@ -399,12 +406,17 @@ theorem core_peerDown (c : Cfg) (env : Env) (past : List Event) (s : SpecSt) (n 
     (inv : RInv c past s n) :
     CoreOk c past s (.peerDown a) (stepCore env n (.peerDown a)).1 (stepCore env n (.peerDown a)).2 :=
   core_storeSame c past s n _ _ _ inv rfl rfl inv.now.symm (fun _ h => h) rfl
+    (by simp [stepCore, peersAfter, inv.peers])
+    (by
+      simp only [stepCore]
+      exact inv.pnodup.sublist (List.Sublist.map _ List.filter_sublist))
 
 theorem core_restart (c : Cfg) (env : Env) (past : List Event) (s : SpecSt) (n : Node)
     (inv : RInv c past s n) :
     CoreOk c past s .restart (stepCore env n .restart).1 (stepCore env n .restart).2 :=
   core_storeSame c past s n _ _ _ inv rfl rfl inv.now.symm
-    (fun st h => by simp [stepCore, lookupNat] at h) rfl
+    (fun st h => by simp [stepCore, lookupNat] at h) rfl (by simp [stepCore, peersAfter])
+    (by simp [stepCore])
 
 /-! ### cleanTick -/
 
@@ -424,7 +436,8 @@ theorem core_cleanTick (c : Cfg) (env : Env) (past : List Event) (s : SpecSt) (n
     intro k
     simp only [stepCore, deleteExpired]
     exact Store.get_foldl_erase _ _ _
-  refine ⟨?_, inv.cfg, rfl, ?_, ?_, ?_, ?_⟩
+  refine ⟨?_, inv.cfg, rfl, ?_, ?_, ?_, ?_, by simp [stepCore, deleteExpired, peersAfter, inv.peers],
+    by simp only [stepCore, deleteExpired]; exact inv.pnodup⟩
   · have := wf_foldl_erase (expiredKeys n.store t) { n with now := t } ⟨inv.wf.keyed, inv.wf.nodup⟩
     exact this
   · intro k it hg
@@ -466,12 +479,13 @@ theorem mem_pendingKeys {s : Store} {k : Key} (h : k ∈ pendingKeys s) : ∃ it
 theorem core_checkPending (c : Cfg) (hfix : c.holdFix = true) (env : Env) (past : List Event) (s : SpecSt)
     (n n1 : Node) (e : Event) (inv : RInv c past s n)
     (hs : n1.store = n.store) (hcfg : n1.cfg = n.cfg) (hnow : n1.now = n.now) (hidk : n1.idk = n.idk)
-    (hev : nowAfter s.now e = s.now) (hnew : newObl c s e = none) :
+    (hev : nowAfter s.now e = s.now) (hnew : newObl c s e = none)
+    (hp : n1.peers = peersAfter s.peers e) (hpn : (n1.peers.map (·.addr)).Nodup) :
     CoreOk c past s e (checkPending env n1).1 (checkPending env n1).2 := by
   have w1 : WF n1 := ⟨by rw [hs]; exact inv.wf.keyed, by rw [hs]; exact inv.wf.nodup⟩
   unfold checkPending
   rcases dispatchKeys_kstep env (pendingKeys n1.store) n1 w1 with ⟨w', e', o', i'⟩
-  refine ⟨w', (e'.cfg.trans hcfg).trans inv.cfg, ?_, ?_, ?_, ?_, ?_⟩
+  refine ⟨w', (e'.cfg.trans hcfg).trans inv.cfg, ?_, ?_, ?_, ?_, ?_, e'.peers.trans hp, by rw [e'.peers]; exact hpn⟩
   · rw [hev, e'.now, hnow, inv.now]
   · intro k it hg
     have : ∃ it0, n.store.get k = some it0 := by
@@ -524,14 +538,30 @@ theorem core_retryTick (c : Cfg) (hfix : c.holdFix = true) (env : Env) (past : L
     (inv : RInv c past s n) :
     CoreOk c past s .retryTick (stepCore env n .retryTick).1 (stepCore env n .retryTick).2 :=
   core_checkPending c hfix env past s n n .retryTick inv rfl rfl rfl rfl rfl rfl
+    (by simp [peersAfter, inv.peers]) inv.pnodup
 
 theorem core_peerUp (c : Cfg) (hfix : c.holdFix = true) (env : Env) (past : List Event) (s : SpecSt) (n : Node)
     (p : Peer) (inv : RInv c past s n) :
     CoreOk c past s (.peerUp p) (stepCore env n (.peerUp p)).1 (stepCore env n (.peerUp p)).2 := by
   simp only [stepCore]
   split
-  · exact core_checkPending c hfix env past s n n (.peerUp p) inv rfl rfl rfl rfl rfl rfl
-  · exact core_checkPending c hfix env past s n _ (.peerUp p) inv rfl rfl rfl rfl rfl rfl
+  · rename_i h
+    exact core_checkPending c hfix env past s n n (.peerUp p) inv rfl rfl rfl rfl rfl rfl
+      (by simp [peersAfter, inv.peers, h]) inv.pnodup
+  · rename_i h
+    refine core_checkPending c hfix env past s n _ (.peerUp p) inv rfl rfl rfl rfl rfl rfl
+      (by simp [peersAfter, inv.peers, h]) ?_
+    simp only [List.map_append, List.map_cons, List.map_nil]
+    refine List.nodup_append.mpr ⟨inv.pnodup, by simp, ?_⟩
+    intro a ha b hb
+    simp at hb
+    subst hb
+    intro hab
+    subst hab
+    rcases List.mem_map.mp ha with ⟨q, hq, hqa⟩
+    apply h
+    apply List.any_eq_true.mpr
+    exact ⟨q, hq, by simp [hqa]⟩
 
 
 /-! ### submit -/
@@ -588,7 +618,8 @@ theorem core_submit (c : Cfg) (hfix : c.holdFix = true) (hexp : c.expiryNow = tr
   have hpast : submitted (past ++ [.submit b]) = submitted past ++ [b] := by rw [submitted_append]; rfl
   have hbnew : b ∈ submitted (past ++ [.submit b]) := by rw [hpast]; exact List.mem_append_right _ List.mem_cons_self
   simp only [stepCore]
-  refine ⟨hstep.wf inv.wf, hstep.env.cfg.trans inv.cfg, ?_, ?_, ?_, ?_, ?_⟩
+  refine ⟨hstep.wf inv.wf, hstep.env.cfg.trans inv.cfg, ?_, ?_, ?_, ?_, ?_,
+    by rw [hstep.env.peers]; simp [peersAfter, inv.peers], by rw [hstep.env.peers]; exact inv.pnodup⟩
   · rw [hstep.env.now, ← inv.now]; rfl
   · intro k it hg
     by_cases hk : k = b.key
@@ -652,7 +683,8 @@ theorem core_receive (c : Cfg) (hfix : c.holdFix = true) (hexp : c.expiryNow = t
   have hpast : received (past ++ [.receive b r]) = received past ++ [b] := by rw [received_append]; rfl
   have hbnew : b ∈ received (past ++ [.receive b r]) := by rw [hpast]; exact List.mem_append_right _ List.mem_cons_self
   simp only [stepCore]
-  refine ⟨hstep.wf inv.wf, hstep.only.env.cfg.trans inv.cfg, ?_, ?_, ?_, ?_, ?_⟩
+  refine ⟨hstep.wf inv.wf, hstep.only.env.cfg.trans inv.cfg, ?_, ?_, ?_, ?_, ?_,
+    by rw [hstep.only.env.peers]; simp [peersAfter, inv.peers], by rw [hstep.only.env.peers]; exact inv.pnodup⟩
   · rw [hstep.only.env.now, ← inv.now]; rfl
   · intro k it hg
     by_cases hk : k = b.key
@@ -746,11 +778,12 @@ theorem retained_run (c : Cfg) (hfix : c.holdFix = true) (hexp : c.expiryNow = t
     exact retained_run c hfix hexp env fut (past ++ [e]) _ _ (i + 1) (by simpa using hdom) h2
 
 theorem rinv_init (c : Cfg) (now : Nat) : RInv c [] (SpecSt.init now) (init c now) := by
-  refine ⟨⟨?_, ?_⟩, rfl, rfl, rfl, ?_, ?_, ?_⟩
+  refine ⟨⟨?_, ?_⟩, rfl, rfl, rfl, ?_, ?_, ?_, rfl, ?_⟩
   · intro k it h; simp [init, Store.get] at h
   · simp [init, Store.keys]
   · intro k it h; simp [init, Store.get] at h
   · intro st h; simp [init, lookupNat] at h
   · intro ob h; simp [SpecSt.init] at h
+  · simp [init]
 
 end Dtn7.Node
